@@ -146,8 +146,18 @@ func (r *Reader) decodeScanLine() {
 	} else {
 		r.decodeG3ScanLine2D()
 	}
+	r.skipFillBits()
 
 	copy(r.refLine, r.line)
+}
+
+// skipFillBits skips the zero bits which pad an encoded row to a byte
+// boundary, if EncodedByteAlign is set.  The input is consumed in whole
+// bytes, so the number of unused bits of the current byte is validBits%8.
+func (r *Reader) skipFillBits() {
+	if r.EncodedByteAlign {
+		r.consumeBits(r.validBits % 8)
+	}
 }
 
 // decodeG4ScanLine decodes a single Group 4 (T.6) scanline.
@@ -158,9 +168,14 @@ func (r *Reader) decodeG4ScanLine() {
 
 	// Check for EOFB (End of Facsimile Block)
 	// EOFB in Group 4 is 24 bits: 000000000001000000000001
-	if !r.IgnoreEndOfBlock && r.peekBits(24) == 0x001001 {
-		r.consumeBits(24)
-		r.err = io.EOF
+	// With EncodedByteAlign, the EOFB may follow the fill bits of the row.
+	for range 2 {
+		if !r.IgnoreEndOfBlock && r.peekBits(24) == 0x001001 {
+			r.consumeBits(24)
+			r.err = io.EOF
+			return
+		}
+		r.skipFillBits()
 	}
 }
 
